@@ -94,7 +94,7 @@ def produced(prog: Program, td: FuncInfo) -> list[tuple[symx.SymPath, ast.Dict]]
     return out
 
 
-def check_paths(prog: Program, ci: ClassInfo, paths, label: str, state_keys: set | None = None) -> list[Problem]:
+def check_paths(prog: Program, ci: ClassInfo, paths, label: str, state_keys: set | None = None, written_elsewhere: set | None = None) -> list[Problem]:
     """problems on consumer paths: KeyError on a literal dictionary, unaccepted keys of a ** expansion, and — when
     the keys that carry object state are given — a state key that is absent from the dictionary and silently
     replaced by the reader's default"""
@@ -158,7 +158,9 @@ def check_paths(prog: Program, ci: ClassInfo, paths, label: str, state_keys: set
                 sig_ = _signature(tfn, bound=tfn.cls is not None and not tfn.is_staticmethod)
                 npos_ = len([a_ for a_ in ev.expr.args if not isinstance(a_, ast.Starred)])
                 have_ = set(sig_["pos"][:npos_]) | set(given)
-                miss_ = sorted(q for q in [*sig_["required_pos"], *sig_["required_kw"]] if q not in have_)
+                # (a key that another arm of the writer produces is left out here by a filter — `if value is not None` —
+                # whose condition is not known on this path: no verdict)
+                miss_ = sorted(q for q in [*sig_["required_pos"], *sig_["required_kw"]] if q not in have_ and q not in (written_elsewhere or ()))
                 k_ = ("required", id(ev.node), tuple(miss_))
                 if miss_ and not any(isinstance(a_, ast.Starred) for a_ in ev.expr.args) and k_ not in seen:
                     seen.add(k_)
@@ -174,9 +176,9 @@ def check_paths(prog: Program, ci: ClassInfo, paths, label: str, state_keys: set
     return probs
 
 
-def consume(prog: Program, ci: ClassInfo, fd: FuncInfo, param: str, d: ast.Dict, facts: dict, label: str, state_keys: set | None = None) -> list[Problem]:
+def consume(prog: Program, ci: ClassInfo, fd: FuncInfo, param: str, d: ast.Dict, facts: dict, label: str, state_keys: set | None = None, written_elsewhere: set | None = None) -> list[Problem]:
     paths = symx.explore(prog, fd, binding={param: d}, facts=facts, inline=_policy(prog, {"create", "modify", "to_dict"}), skip_tests=("logger",))
-    return check_paths(prog, ci, paths, label, state_keys)
+    return check_paths(prog, ci, paths, label, state_keys, written_elsewhere)
 
 
 def facts_of(p: symx.SymPath) -> dict:
